@@ -22,7 +22,7 @@ How the real code is tied to the model
 Time is virtual: the names `Timeout` in slimta.relay.pool / slimta.relay.smtp.client and
 `gevent` in slimta.relay.http are replaced by a virtual Timeout driven by the harness clock.
 """
-import collections, errno, io, os, socket, types, time as _time
+import collections, errno, io, os, re, socket, types, time as _time
 
 import gevent
 from gevent.event import AsyncResult as GAsyncResult
@@ -292,14 +292,22 @@ class World(object):
 poolmod_AsyncResult = poolmod.AsyncResult
 
 
-def make_env(no, eightbit=False):
-    env = Envelope('s%d@example.com' % no, ['r%da@example.com' % no, 'r%db@example.com' % no])
+def make_env(no, eightbit=False, rcpts=None, sender=None, refuse=False):
+    """envelope number `no`; the number is in the sender, in every recipient and in the X-Env header"""
+    rcpts = rcpts or ['r%da', 'r%db']
+    env = Envelope((sender or 's%d') % no + '@example.com', [(r % no) + '@example.com' for r in rcpts])
     body = b'body of %d\r\n' % no
     if eightbit:
         body += b'caf\xc3\xa9\r\n'
-    env.parse(b'From: s%d@example.com\r\nX-Env: %d\r\n\r\n' % (no, no) + body)
+    extra = b'X-Refuse-Me: yes\r\n' if refuse else b''
+    env.parse(b'From: s%d@example.com\r\nX-Env: %d\r\n' % (no, no) + extra + b'\r\n' + body)
     env.no = no
     return env
+
+
+def addr_no(addr):
+    m = re.search(r'(\d+)', addr if isinstance(addr, str) else addr.decode('utf-8', 'replace'))
+    return int(m.group(1)) if m else -1
 
 
 # ====================================================================== model-side helpers
@@ -783,7 +791,8 @@ def judge_scripted(ctx, runs, label):
 
 # ====================================================================== 3. StaticSmtpRelay + SmtpRelayClient
 OK_MS = dict(pre=0, enc=1, mail=0, rcpts=[0, 0], data=0, body=0, rset=1, flavour='close', hold=0)
-W = dict(connect=0, handshake=1, mail=2, rcpt=3, data=4, body=5, empty=6, rset=7, quit=8, close=9, result=10, requeue=11)
+W = dict(connect=0, handshake=1, mail=2, rcpt=3, data=4, body=5, empty=6, rset=7, quit=8, close=9, result=10, requeue=11,
+         result_rcpts=12)
 
 
 class FakeConn(object):
@@ -805,6 +814,9 @@ class FakeConn(object):
         self.rcpt_i = 0
         self.held = None          # reply held back until the harness releases it
         self.closed = False
+        self.in_txn = False       # a real server refuses MAIL inside a transaction
+        self.accepted = 0         # recipients accepted in this transaction (LMTP: one data reply each)
+        self.lmtp = bool(cs.get('lmtp'))
         self.log = world.wirelog.setdefault(self.owner, [])
         self.log.append((W['handshake'],))
         hs, stage, flavour = cs['handshake'], cs['hs_stage'], cs['flavour']
@@ -873,11 +885,13 @@ class FakeConn(object):
         else:
             self.silent = True          # never answers: the client's command timeout has to fire
 
-    def reply_or_drop(self, s, text, flavour, okreply=None):
+    def reply_or_drop(self, s, text, flavour, okreply=None, n=1):
         if s == 0:
-            self.push(okreply)
+            self.push(okreply * n)
         elif s == 1:
-            self.push(text)
+            self.push(text * n)
+        elif s == 3:              # the same rejection as a 4xx
+            self.push((b'450 4.0.0' + text[text.index(b' '):]) * n)
         else:
             self.drop(flavour)
 
@@ -909,11 +923,13 @@ class FakeConn(object):
                     self.log.append((W['body'], no))
                 ms = self.ms
 
-                def answer(ms=ms):
-                    # with PIPELINING the client reads this reply outside its data timeout (defect D18,
-                    # judged by C14): a mute server would hold it for ever, so "lost" is a closed connection here
-                    fl = 'close' if self.cs['pipe'] else ms['flavour']
-                    self.reply_or_drop(ms['body'], b'550 scripted-reject body\r\n', fl, b'250 2.0.0 queued\r\n')
+                self.in_txn = False
+                nrep = self.accepted if self.lmtp else 1       # LMTP: one reply per accepted recipient
+                self.accepted = 0
+
+                def answer(ms=ms, nrep=nrep):
+                    if nrep:
+                        self.reply_or_drop(ms['body'], b'550 scripted-reject body\r\n', ms['flavour'], b'250 2.0.0 queued\r\n', nrep)
                 if ms.get('hold'):
                     self.held = answer
                 else:
@@ -928,7 +944,7 @@ class FakeConn(object):
                 # the server is gone / mute; what the client still writes is logged all the same
                 self.log_cmd(up, line)
                 continue
-            if up.startswith(b'EHLO') or up.startswith(b'HELO'):
+            if up.startswith(b'EHLO') or up.startswith(b'HELO') or up.startswith(b'LHLO'):
                 hs, stage, flavour = self.cs['handshake'], self.cs['hs_stage'], self.cs['flavour']
                 if hs != 0 and stage == 'ehlo':
                     self.reply_or_drop(hs, b'550 scripted-reject ehlo\r\n', flavour)
@@ -942,14 +958,24 @@ class FakeConn(object):
                     self.push(b'\r\n'.join(ext) + b'\r\n')
             elif up.startswith(b'MAIL FROM:'):
                 self.log_cmd(up, line)
+                if self.in_txn:
+                    # like slimta's own Server or Postfix: no MAIL inside a transaction
+                    self.world.nested_mail.append((self.owner, self.env_no))
+                    self.push(b'503 5.5.1 Bad sequence of commands (nested MAIL)\r\n')
+                    continue
                 self.ms = self.world.cur_ms.get(self.owner) or OK_MS
                 self.rcpt_i = 0
+                self.accepted = 0
+                if self.ms['mail'] == 0:
+                    self.in_txn = True
                 self.reply_or_drop(self.ms['mail'], b'550 scripted-reject mail\r\n', self.ms['flavour'], b'250 ok\r\n')
             elif up.startswith(b'RCPT TO:'):
                 self.log_cmd(up, line)
                 rc = self.ms['rcpts']
                 s = rc[self.rcpt_i] if self.rcpt_i < len(rc) else 0
                 self.rcpt_i += 1
+                if s == 0:
+                    self.accepted += 1
                 self.reply_or_drop(s, b'550 scripted-reject rcpt\r\n', self.ms['flavour'], b'250 ok\r\n')
             elif up == b'DATA':
                 self.log_cmd(up, line)
@@ -960,6 +986,8 @@ class FakeConn(object):
             elif up == b'RSET':
                 self.log_cmd(up, line)
                 ms = self.world.cur_ms.get(self.owner) or OK_MS
+                self.in_txn = False
+                self.accepted = 0
                 if ms['rset']:
                     self.push(b'250 ok\r\n')
                 else:
@@ -973,11 +1001,10 @@ class FakeConn(object):
 
     def log_cmd(self, up, line):
         if up.startswith(b'MAIL FROM:'):
-            self.env_no = int(line[len(b'MAIL FROM:<s'):].split(b'@')[0])
+            self.env_no = addr_no(line)
             self.log.append((W['mail'], self.env_no))
         elif up.startswith(b'RCPT TO:'):
-            no = int(line[len(b'RCPT TO:<r'):].split(b'@')[0][:-1])
-            self.log.append((W['rcpt'], no))
+            self.log.append((W['rcpt'], addr_no(line)))
         elif up == b'DATA':
             self.log.append((W['data'], self.env_no))
         elif up == b'RSET':
@@ -989,8 +1016,11 @@ class FakeConn(object):
 class SmtpWorld(World):
     """StaticSmtpRelay with the real SmtpRelayClient; only tracing wrappers are added"""
 
-    def __init__(self, size, idle, conn_scripts, env_scripts, env_8bit):
+    def __init__(self, size, idle, conn_scripts, env_scripts, env_8bit, lmtp=False, env_spec=None):
         World.__init__(self)
+        self.lmtp = lmtp
+        self.env_spec = env_spec or {}       # env no -> dict(rcpts=[...], sender=..., refuse=...)
+        self.nested_mail = []                # (client, env) for every MAIL the server saw inside a transaction
         self.size = size
         self.idle = idle
         self.conn_scripts = conn_scripts      # per connection attempt (index = client number)
@@ -1010,14 +1040,17 @@ class SmtpWorld(World):
         self.try_no = {}
 
     def conn_script(self, c):
-        return self.conn_scripts[c] if c < len(self.conn_scripts) else dict(connect=1, handshake=0, hs_stage='ehlo', flavour='close', pipe=c % 2, eightbit=1, hold=0)
+        cs = self.conn_scripts[c] if c < len(self.conn_scripts) else dict(self.conn_scripts[-1] if self.conn_scripts else dict(connect=1, handshake=0, hs_stage='ehlo', flavour='close', pipe=c % 2, eightbit=1), hold=0)
+        return dict(cs, lmtp=self.lmtp)
 
     def start(self):
-        from slimta.relay.smtp.static import StaticSmtpRelay
+        from slimta.relay.smtp.static import StaticSmtpRelay, StaticLmtpRelay
         from slimta.relay.smtp.client import SmtpRelayClient
+        from slimta.relay.smtp.lmtpclient import LmtpRelayClient
         world = self
+        StaticRelay = StaticLmtpRelay if self.lmtp else StaticSmtpRelay
 
-        class TracedClient(SmtpRelayClient):
+        class TracedClient(LmtpRelayClient if self.lmtp else SmtpRelayClient):
             def __init__(self, *a, **kw):
                 super(TracedClient, self).__init__(*a, **kw)
                 self.no = world.register(self)
@@ -1028,7 +1061,7 @@ class SmtpWorld(World):
                 finally:
                     world.on_finish(self)
 
-        class TracedRelay(StaticSmtpRelay):
+        class TracedRelay(StaticRelay):
             def _remove_client(self, client):
                 super(TracedRelay, self)._remove_client(client)
                 world.on_removed(client)
@@ -1094,8 +1127,12 @@ class SmtpWorld(World):
 
     def result_kind(self, ok, value):
         if ok:
+            if isinstance(value, dict) and value and all(isinstance(v, Exception) for v in value.values()):
+                return 3          # failed; reported as a dict of per-recipient errors
             return 0
         rep = getattr(value, 'reply', None)
+        if rep is not None and rep.code == '553' and 'SMTPUTF8' in (rep.message or ''):
+            return 1
         if rep is not None and 'scripted-reject' in (rep.message or ''):
             return 1
         if rep is not None and rep.code == '554' and 'Conversion' in (rep.message or ''):
@@ -1107,7 +1144,10 @@ class SmtpWorld(World):
         held = self.holding.get(c) if c is not None else None
         World.on_result(self, res, ok, value)
         if held is not None and held[0] is res:
-            self.wirelog.setdefault(c, []).append((W['result'], held[1].no, 1 if ok else 0))
+            if res.kind == 3:
+                self.wirelog.setdefault(c, []).append((W['result_rcpts'], held[1].no))
+            else:
+                self.wirelog.setdefault(c, []).append((W['result'], held[1].no, 1 if ok else 0))
             if ok:
                 # the result of THIS envelope: a dict over its recipients
                 if not isinstance(value, dict) or sorted(value) != sorted(held[1].recipients):
@@ -1130,7 +1170,11 @@ class SmtpWorld(World):
     def do(self, act):
         t = act[0]
         if t == 'A':
-            env = make_env(self.nenv, self.env_8bit.get(self.nenv, False))
+            sc = self.env_scripts.get(self.nenv) or [OK_MS]
+            spec = dict(self.env_spec.get(self.nenv) or {})
+            if 'rcpts' not in spec and len(sc[0]['rcpts']) != 2:
+                spec['rcpts'] = ['r%d' + 'abcdefgh'[i] for i in range(len(sc[0]['rcpts']))]
+            env = make_env(self.nenv, self.env_8bit.get(self.nenv, False), **spec)
             self.nenv += 1
             self.attempt_greenlets.append(gevent.spawn(self._attempt, env))
         elif t == 'T':
@@ -1163,8 +1207,9 @@ SRV = [0, 0, 0, 0, 1, 2]
 def gen_ms(rng, plain_p=0.45):
     if rng.random() < plain_p:
         return dict(OK_MS, hold=rng.choice([0, 1]))
-    return dict(pre=rng.choice([0, 0, 0, 1]), enc=1, mail=rng.choice(SRV), rcpts=[rng.choice(SRV), rng.choice(SRV)],
-                data=rng.choice(SRV), body=rng.choice(SRV), rset=rng.choice([1, 1, 0]),
+    rc = rng.choice([SRV, SRV, [1, 3], [1, 3, 3, 0]])      # sometimes: every recipient rejected, in whatever classes
+    return dict(pre=rng.choice([0, 0, 0, 1]), enc=1, mail=rng.choice(SRV + [3]), rcpts=[rng.choice(rc) for _ in range(rng.choice([2, 2, 3]))],
+                data=rng.choice(SRV + [3]), body=rng.choice(SRV + [3]), rset=rng.choice([1, 1, 0]),
                 flavour=rng.choice(['close', 'close', 'silent']), hold=rng.choice([0, 0, 1]))
 
 
@@ -1196,7 +1241,7 @@ def py_one_at_a_time(log):
             cur = None
         elif t == W['rset']:
             cur = None
-        elif t in (W['result'], W['requeue']):
+        elif t in (W['result'], W['requeue'], W['result_rcpts']):
             if cur is not None and cur != w[1]:
                 return 'result/requeue for envelope %d during the transaction of envelope %d' % (w[1], cur)
     return None
@@ -1206,7 +1251,7 @@ def py_reset_after_failure(log):
     dirty = None
     for w in log:
         t = w[0]
-        if t == W['result'] and w[2] == 0:
+        if (t == W['result'] and w[2] == 0) or t == W['result_rcpts']:
             dirty = w[1]
         elif t == W['rset']:
             dirty = None
@@ -1218,7 +1263,9 @@ def py_reset_after_failure(log):
 def run_smtp_case(cfg, script, rng=None, nsteps=0):
     """cfg: dict(size, idle, conn_scripts, env_scripts, env_8bit, nattempts)"""
     w = SmtpWorld(cfg['size'], cfg['idle'], cfg['conn_scripts'],
-                  {int(k): v for k, v in cfg['env_scripts'].items()}, {int(k): v for k, v in cfg['env_8bit'].items()})
+                  {int(k): v for k, v in cfg['env_scripts'].items()}, {int(k): v for k, v in cfg['env_8bit'].items()},
+                  lmtp=bool(cfg.get('lmtp')), env_spec={int(k): v for k, v in (cfg.get('env_spec') or {}).items()})
+    w.nenv = int(cfg.get('first_env', 0))
     fails = []
     out_script = []
     size = cfg['size']
@@ -1280,8 +1327,7 @@ def run_smtp_case(cfg, script, rng=None, nsteps=0):
                 break
         for no, oc in sorted(w.outcomes.items()):
             if oc[0] == 'ok':
-                want = sorted(['r%da@example.com' % no, 'r%db@example.com' % no])
-                if not isinstance(oc[1], dict) or sorted(oc[1]) != want:
+                if not isinstance(oc[1], dict) or not oc[1] or any(addr_no(k) != no for k in oc[1]):
                     fails.append(('c19:result-of-another-envelope', 'attempt(envelope %d) returned %r' % (no, oc[1])))
         for c, log in sorted(w.wirelog.items()):
             e1 = py_one_at_a_time(log)
@@ -1289,9 +1335,13 @@ def run_smtp_case(cfg, script, rng=None, nsteps=0):
                 fails.append(('c19:two-messages-on-one-connection', 'client %d: %s; wire %r' % (c, e1, log)))
             e2 = py_reset_after_failure(log)
             if e2:
-                fails.append(('c19:no-reset-after-failed-transaction', 'client %d: %s; wire %r' % (c, e2, log)))
+                fails.append(('c19:reused-connection-not-reset-after-failed-transaction', 'client %d: %s; wire %r' % (c, e2, log)))
+        for c, no in w.nested_mail:
+            fails.append(('c19:reused-connection-not-reset-after-failed-transaction',
+                          'client %r: the server received MAIL for envelope %r inside the transaction of an earlier message (answered 503); wire %r' % (c, no, w.wirelog.get(c))))
         fails.extend(w.problems)
         res = dict(script=out_script, raw=list(w.raw), fails=fails, nenv=w.nenv, max_pool=w.max_pool,
+                   outcomes=dict(w.outcomes),
                    polls={c: list(v) for c, v in w.polls.items()}, wirelog={c: list(v) for c, v in w.wirelog.items()},
                    nclients=len(w.clients), finished=set(w.finished),
                    conn_used=[w.conn_effective.get(c) or w.conn_script(c) for c in range(len(w.clients))], max_open=w.max_open)
@@ -1362,6 +1412,8 @@ def judge_smtp(ctx, runs):
     ACT = {'enterpoll': 0, 'poll': 1, 'idle': 2, 'done': 3, 'requeue': 4, 'giveup': 5}
     for (i, c), so in zip(sidx, souts):
         r = runs[i]
+        if r['cfg'].get('lmtp') or r['cfg'].get('no_model'):
+            continue        # the Coq model is the SMTP client; these runs are judged by the oracles only
         case = dict(kind='smtp', cfg=r['cfg'], script=r['script'], client=c)
         m_wire, m_acts, m_exited, m_oaat, m_raf, m_contract = so
         real_wire = tuple(tuple(w) for w in r['wirelog'].get(c, []) if w[0] != W['handshake'])
